@@ -100,7 +100,7 @@ def gen_op(rng: random.Random, cfg: dict, kind: str | None = None) -> dict:
             id=["fresh", 0] if rng.random() < 0.6 else ["explicit", rng.randint(1, 60)],
             force=force, reinvert=reinv,
             pix={"o": [rng.random() for _ in range(3)], "ext": [rng.randint(1, 3) for _ in range(3)], "pat": rng.choice(["box", "box", "scatter", "single"])},
-            pos=[rng.random() for _ in range(3)],
+            pos=[rng.random() for _ in range(3)], bogus_attrs=rng.random() < 0.15,
         )
         if inval:
             op["invalid"] = rng.choice(["exists", "no_time", "no_track", "no_pos", "no_pos"])
@@ -153,7 +153,7 @@ def gen_op(rng: random.Random, cfg: dict, kind: str | None = None) -> dict:
             t=rng.randrange(12), o=[rng.random() for _ in range(3)], ext=[rng.randint(1, 4) for _ in range(3)],
             value=[vm, rng.randrange(16)], track=_track(rng, cfg), force=force, reinvert=reinv,
             target=rng.randrange(64) if rng.random() < 0.6 else None, whole=rng.random() < 0.3,
-            order=rng.choice(["fwd", "fwd", "rev"]),
+            order=rng.choice(["fwd", "fwd", "rev"]), frames=rng.choice([1, 1, 1, 2, 3]),
         )
         if inval:
             op["invalid"] = "two_frames"
